@@ -307,6 +307,8 @@ impl AddressRange {
     }
 
     pub(crate) fn limited_count(self, limit: u16) -> Result<Self, InvalidRange> {
+        // the fields are public, so the range may not have been validated by `try_from`
+        Self::try_from(self.start, self.count)?;
         if self.count > limit {
             return Err(InvalidRange::CountTooLargeForType(self.count, limit));
         }
